@@ -32,7 +32,26 @@ def _agg(v, minimize):
     return -v if minimize else v
 
 
+class _AggFit:
+    """multi-objective stand-in: the elitism order is by the default aggregate (signed sum)"""
+
+    def __init__(self, fit, minimize):
+        self.fit, self.minimize = fit, minimize
+
+    def value_of(self, tok):
+        v = self.fit.value_of(tok)
+        return sum(-x if m else x for x, m in zip(v, self.minimize))
+
+
 def _mk(ctx, cfg):
+    if cfg.get("objectives", 1) > 1:
+        n = cfg["objectives"]
+        ms = [ctx.bool("minimize") for _ in range(n)]
+        raw = SymFitness(ctx, TABLES[2], components=n)
+        problem = MultiObjectiveProblem(list(ms), raw)
+        rep = TokRep()
+        inds = [Individual(rep.create_genotype(None), rep) for _ in range(cfg["M"])]
+        return False, _AggFit(raw, ms), problem, rep, inds
     minimize = ctx.bool("minimize")
     fit = SymFitness(ctx, TABLES[cfg.get("table", 3)])
     problem = SingleObjectiveProblem(fit, minimize=minimize)
@@ -150,6 +169,7 @@ def obligations(tier: str):
     add("elitism", "elitism_topk_list", M=M)
     add("elitism", "elitism_topk_iterator", M=M, form="iterator")
     add("elitism", "elitism_topk_duplicates", M=M, duplicates=True, table=2)
+    add("elitism", "elitism_topk_two_objectives", M=3, objectives=2, timeout=200)
     add("helpers", "sort_best_is_better", M=M)
     add("run_monotone", "gp_run_monotone_best", P=2, budget=4 if not T else 5, timeout=250)
     add("generation", "one_generation_monotone_best", M=2 if not T else 3, table=2, timeout=250)
